@@ -3,6 +3,7 @@ package sx
 import (
 	"go/token"
 	"go/types"
+	"math/big"
 	"sync"
 
 	"golang.org/x/tools/go/ssa"
@@ -200,9 +201,26 @@ func (s *sched) fireIdleTimer() bool {
 	if len(cands) == 0 {
 		return false
 	}
-	c := cands[0]
-	if len(cands) > 1 {
-		c = cands[s.e.choose(len(cands))]
+	// timers of known (concrete) duration fire in deadline order on a virtual clock that only advances while
+	// everything is idle; timers of unknown duration may fire at any idle moment
+	var min *big.Int
+	for _, c := range cands {
+		if c.due != nil && (min == nil || c.due.Cmp(min) < 0) {
+			min = c.due
+		}
+	}
+	var elig []*chanV
+	for _, c := range cands {
+		if c.due == nil || c.due.Cmp(min) == 0 {
+			elig = append(elig, c)
+		}
+	}
+	c := elig[0]
+	if len(elig) > 1 {
+		c = elig[s.e.choose(len(elig))]
+	}
+	if c.due != nil && c.due.Cmp(s.e.vclock) > 0 {
+		s.e.vclock = c.due
 	}
 	c.fire()
 	return true
